@@ -58,7 +58,11 @@ def showVerdict : Except StreamNeg.HErr (StreamNeg.Info × StreamNeg.OutHdr) →
   | .error e => "err:" ++ e.toString
   | .ok (i, o) => s!"ok:{showInfo i}/{hx o.to},{hx o.src},{hx o.xmlns}"
 
-def handleNeg (role ws s2s loc orig jids : String) (hdrs : List String) : Option String := do
+def optNat (s : String) : Option (Option Nat) :=
+  if s == "-" then some none else s.toNat?.map some
+
+def handleNeg (role ws s2s loc orig jids : String) (env : Option (String × String × String))
+    (hdrs : List String) : Option String := do
   let recv ← if role == "r" then some true else if role == "i" then some false else none
   let ws ← parseBool ws; let s2s ← parseBool s2s
   let loc ← txt loc; let orig ← txt orig
@@ -75,8 +79,14 @@ def handleNeg (role ws s2s loc orig jids : String) (hdrs : List String) : Option
     | some (_, c) => c
     | none => none
   let a0 : StreamNeg.Addrs := if recv then ⟨loc, orig⟩ else ⟨orig, loc⟩
-  let vs := StreamNeg.negRun recv ws s2s parseJid a0 hs
-  pure (" ".intercalate (vs.map showVerdict))
+  let (vs, fin) ← match env with
+    | none => some (StreamNeg.negRun recv ws s2s parseJid a0 hs, StreamNeg.negEnd recv ws s2s parseJid a0 hs)
+    | some (tee, budget, cancel) => do
+      let t ← parseBool tee
+      let b ← optNat budget
+      let k ← optNat cancel
+      pure (StreamNeg.negRunE recv ws s2s parseJid t k 0 b a0 hs)
+  pure (" ".intercalate (vs.map showVerdict ++ [s!"final:{hx fin.to},{hx fin.src}"]))
 
 /-! ### bind -/
 
@@ -135,7 +145,9 @@ def handleBindS (s2s remote reqid reqres cb a cbjid : String) : Option String :=
 def handle (args : List String) : Option String :=
   match args with
   | ["hdr", ws, xmlns, to, src, id, lang, emitted] => handleHdr ws xmlns to src id lang emitted
-  | "neg" :: role :: ws :: s2s :: loc :: orig :: jids :: hdrs => handleNeg role ws s2s loc orig jids hdrs
+  | "neg" :: role :: ws :: s2s :: loc :: orig :: jids :: hdrs => handleNeg role ws s2s loc orig jids none hdrs
+  | "nege" :: role :: ws :: s2s :: loc :: orig :: jids :: tee :: budget :: cancel :: hdrs =>
+    handleNeg role ws s2s loc orig jids (some (tee, budget, cancel)) hdrs
   | ["bindc", locl, reply, a, b, ajid, bjid] => handleBindC locl reply a b ajid bjid
   | ["binds", s2s, remote, reqid, reqres, cb, a, cbjid] => handleBindS s2s remote reqid reqres cb a cbjid
   | _ => none
